@@ -552,6 +552,8 @@ func (g *G) genWorld() {
 		if g.P.AuthSecret {
 			g.add(&world.Obj{Kind: world.KSecret, NS: ns, Name: "pw", SecretKind: "auth", Auth: "usr1::clear1\n"})
 			g.add(&world.Obj{Kind: world.KSecret, NS: ns, Name: "pw2", SecretKind: "auth", Auth: "usr2::clear2\n"})
+			// a password file without a single valid user: the userlist is empty but still declared and referenced
+			g.add(&world.Obj{Kind: world.KSecret, NS: ns, Name: "pw3", SecretKind: "auth", Auth: g.pick("emptyauth", []string{"", "# nobody\n", "usr3\n"})})
 		}
 	}
 	minIng := 1
@@ -1218,7 +1220,7 @@ func richProfile() Profile {
 	}
 	p.Ann = append(p.Ann,
 		annChoice{"auth-type", []string{"basic"}},
-		annChoice{"auth-secret", []string{"pw", "missing"}},
+		annChoice{"auth-secret", []string{"pw", "missing", "pw3"}},
 		annChoice{"auth-url", []string{"http://10.0.0.9:8080/auth", "https://10.0.0.9/auth", "http://10.0.0.10/check", "svc://s2:8000", "svc://s1:80", "svc://s9:80", "svc://s2", "http://bad host/", "ftp://10.0.0.9/x", "http://localhost:9000/a"}},
 		annChoice{"auth-external-placement", []string{"frontend", "backend"}},
 		annChoice{"auth-signin", []string{"http://h1.local/signin"}},
@@ -1238,7 +1240,7 @@ func richProfile() Profile {
 	p.Paths = append(append([]string{}, basePaths...), "/oauth2")
 	authURLs := []string{"http://10.0.0.9:8080/auth", "https://10.0.0.9/auth", "http://10.0.0.10/check", "svc://s2:8000", "svc://s1:80", "svc://s9:80", "svc://s2", "http://bad host/", "ftp://10.0.0.9/x"}
 	p.Bundles = []annBundle{
-		{Name: "basic-auth", Keys: []annChoice{{"auth-type", []string{"basic"}}, {"auth-secret", []string{"pw", "pw", "missing"}}}},
+		{Name: "basic-auth", Keys: []annChoice{{"auth-type", []string{"basic"}}, {"auth-secret", []string{"pw", "pw", "missing", "pw3"}}}},
 		{Name: "auth-url-backend", Keys: []annChoice{{"auth-url", authURLs}, {"auth-external-placement", []string{"backend"}}}},
 		{Name: "auth-url-frontend", Keys: []annChoice{{"auth-url", authURLs}, {"auth-external-placement", []string{"frontend"}}}},
 		{Name: "oauth", Keys: []annChoice{{"oauth", []string{"oauth2_proxy"}}}, Path: "/oauth2"},
